@@ -125,7 +125,7 @@ SHAPES = ((), (1,), (2,), (10,), (17,), (1, 2), (2, 2), (10, 2), (17, 2))     # 
 SHAPES_T = SHAPES + ((1, 1, 1), (2, 10, 17), (17, 17), (16,))
 
 
-def mut_case(shape, kind, j, v, focus, cut):
+def mut_case(shape, kind, j, v, focus, cut, combo=False):
     """-> concrete (wire, focus) by explicit branching on the selectors that the chosen mutation uses."""
     sizes = pick(shape, SHAPES_T)
     nrec = len(sizes) + 1
@@ -143,14 +143,14 @@ def mut_case(shape, kind, j, v, focus, cut):
     wire = hs.mutated_chunked(sizes, kind, j, variant)
     if kind == len(hs.KINDS):
         wire = wire[:pick(cut, tuple(range(len(wire))))]       # proper prefixes only
-    elif cut >= 0:
+    elif combo:
         # thorough tier: mutation AND truncation (cut counted from the end so that the selector range is small)
         c = pick(cut, tuple(range(12)))
         wire = wire[:len(wire) - c] if c <= len(wire) else b''
     return wire, focus
 
 
-def dechunk_mutated(shape: int, kind: int, j: int, v: int, focus: int, cut: int, nshape: int) -> str:
+def dechunk_mutated(shape: int, kind: int, j: int, v: int, focus: int, cut: int, nshape: int, combo: bool) -> str:
     """
     Structure-aware mutations of a valid chunked body (<= 3 data chunks + last chunk): one mutation of the size field, the
     extension, the header terminator, the data length, the data terminator, the tail or the last chunk, or a truncation at any
@@ -161,10 +161,10 @@ def dechunk_mutated(shape: int, kind: int, j: int, v: int, focus: int, cut: int,
     pre: 0 <= j < 4
     pre: 0 <= v < 17
     pre: 0 <= focus < 3
-    pre: -1 <= cut < 60
+    pre: 0 <= cut < 60
     post: __return__ == 'ok'
     """
-    wire, focus = mut_case(shape, kind, j, v, focus, cut)
+    wire, focus = mut_case(shape, kind, j, v, focus, cut, combo)
     with untraced():
         orc = Oracle()
         try:
@@ -182,8 +182,13 @@ def dechunk_mutated(shape: int, kind: int, j: int, v: int, focus: int, cut: int,
 
 GZ_ABC = CompressionHandler.compress_payload('gzip', b'abc')
 GZ_CHUNKED = b'%x\r\n' % len(GZ_ABC) + GZ_ABC + b'\r\n0\r\n\r\n'
-BODIES = (b'', b'abc', b'abcdef', GZ_ABC, GZ_ABC[:-3], b'3\r\nabc\r\n0\r\n\r\n', b'zz\r\n', b'0\r\n\r\n', b'3\r\nab', b'-1\r\n',
-          GZ_CHUNKED)
+ALL_BODIES = (b'', b'abc', b'abcdef', GZ_ABC, GZ_ABC[:-3], b'3\r\nabc\r\n0\r\n\r\n', b'zz\r\n', b'0\r\n\r\n', b'3\r\nab', b'-1\r\n',
+              GZ_CHUNKED)
+GZ_CUT = GZ_ABC[:-3]
+# body pools (case split `pool`): 0 = everything incl. malformed framing; 1 = unframed payloads; 2 = well-formed chunked messages
+BODIES = (ALL_BODIES,
+          (b'', b'abc', b'abcdef', GZ_ABC, GZ_CUT),
+          (b'3\r\nabc\r\n0\r\n\r\n', b'0\r\n\r\n', GZ_CHUNKED, b'%x\r\n' % len(GZ_CUT) + GZ_CUT + b'\r\n0\r\n\r\n'))
 TE = (None, 'chunked', 'Chunked', 'CHUNKED', '', 'gzip', 'chunked ', 'gzip, chunked')
 CL = (None, '', '0', '3', str(len(GZ_ABC)), ' 3 ', '+3', '-1', 'abc', '3.0', '0x3', '3, 3', '99')
 CE = (None, '', 'gzip', 'GZIP', 'x-lz4', 'bogus', 'identity', 'gzip, gzip')
@@ -206,10 +211,10 @@ def body_outcome(reader, msg, st, se):
     return 'returned', res
 
 
-def _body_case(te, cl, ce, se, body, focus):
+def _body_case(te, cl, ce, se, pool, body, focus):
     te, cl = pick(te, TE), pick(cl, CL)
     ce, se = pick(ce, CE), pick(se, SE)
-    return te, cl, ce, se, pick(body, BODIES), pick(focus, FOCI)
+    return te, cl, ce, se, pick(body, pick(pool, BODIES)), pick(focus, FOCI)
 
 
 def _headers(te, cl, ce):
@@ -223,7 +228,7 @@ def _headers(te, cl, ce):
     return hs.CIHeaders(pairs)
 
 
-def request_body(te: int, cl: int, ce: int, se: int, body: int, focus: int) -> str:
+def request_body(te: int, cl: int, ce: int, se: int, pool: int, body: int, focus: int) -> str:
     """
     read_request_body for every combination of transfer-encoding / content-length / content-encoding header values (valid, sloppy,
     junk) over a pool of body streams: terminates; returns bytes/None or raises DechunkError / DecompressError (or the codec's
@@ -232,11 +237,12 @@ def request_body(te: int, cl: int, ce: int, se: int, body: int, focus: int) -> s
     pre: 0 <= cl < 13
     pre: 0 <= ce < 8
     pre: 0 <= se < 4
+    pre: 0 <= pool < 3
     pre: 0 <= body < 11
     pre: 0 <= focus < 3
     post: __return__ == 'ok'
     """
-    te, cl, ce, se, data, focus = _body_case(te, cl, ce, se, body, focus)
+    te, cl, ce, se, data, focus = _body_case(te, cl, ce, se, pool, body, focus)
     with untraced():
         orc = Oracle()
         try:
@@ -251,18 +257,19 @@ def request_body(te: int, cl: int, ce: int, se: int, body: int, focus: int) -> s
         return orc.result()
 
 
-def response_body(te: int, cl: int, ce: int, se: int, body: int, focus: int) -> str:
+def response_body(te: int, cl: int, ce: int, se: int, pool: int, body: int, focus: int) -> str:
     """
     read_response_body, same header space (the http client has already de-chunked: `read()` returns the rest, then b'').
     pre: 0 <= te < 8
     pre: 0 <= cl < 13
     pre: 0 <= ce < 8
     pre: 0 <= se < 4
+    pre: 0 <= pool < 3
     pre: 0 <= body < 11
     pre: 0 <= focus < 3
     post: __return__ == 'ok'
     """
-    te, cl, ce, se, data, focus = _body_case(te, cl, ce, se, body, focus)
+    te, cl, ce, se, data, focus = _body_case(te, cl, ce, se, pool, body, focus)
     with untraced():
         orc = Oracle()
         try:
